@@ -598,41 +598,48 @@ impl LuaModuleIndex {
 
 impl LuaIndex for LuaModuleIndex {
     fn remove(&mut self, file_id: FileId) {
-        let (mut parent_id, mut child_id) =
-            if let Some(module_info) = self.file_module_map.remove(&file_id) {
-                let module_id = module_info.module_id;
-                let node = match self.module_nodes.get_mut(&module_id) {
-                    Some(node) => node,
-                    None => return,
-                };
+        let module_info = match self.file_module_map.remove(&file_id) {
+            Some(module_info) => module_info,
+            None => return,
+        };
+
+        // the fuzzy map is keyed by the last segment of the module path
+        if let Some(file_ids) = self.module_name_to_file_ids.get_mut(&module_info.name) {
+            file_ids.retain(|id| *id != file_id);
+            if file_ids.is_empty() {
+                self.module_name_to_file_ids.remove(&module_info.name);
+            }
+        }
+
+        let module_id = module_info.module_id;
+        let (mut parent_id, mut child_id) = match self.module_nodes.get_mut(&module_id) {
+            Some(node) => {
                 node.file_ids.retain(|id| *id != file_id);
-                if node.file_ids.is_empty() && node.children.is_empty() {
-                    (node.parent, Some(module_id))
+                if node.file_ids.is_empty()
+                    && node.children.is_empty()
+                    && module_id != self.module_root_id
+                {
+                    let parent_id = node.parent;
+                    self.module_nodes.remove(&module_id);
+                    (parent_id, Some(module_id))
                 } else {
                     (None, None)
                 }
-            } else {
-                (None, None)
-            };
+            }
+            None => (None, None),
+        };
 
-        if parent_id.is_none() || child_id.is_none() {
-            return;
-        }
-
-        while let Some(id) = parent_id {
-            let child_module_id = match child_id {
-                Some(id) => id,
-                None => break,
-            };
+        // detach the emptied node from its parent and prune ancestors that became empty
+        while let (Some(id), Some(child_module_id)) = (parent_id, child_id) {
             let node = match self.module_nodes.get_mut(&id) {
                 Some(node) => node,
                 None => break,
             };
             node.children
-                .retain(|_, node_child_idid| *node_child_idid != child_module_id);
+                .retain(|_, node_child_id| *node_child_id != child_module_id);
 
             if id == self.module_root_id {
-                return;
+                break;
             }
 
             if node.file_ids.is_empty() && node.children.is_empty() {
@@ -641,28 +648,6 @@ impl LuaIndex for LuaModuleIndex {
                 self.module_nodes.remove(&id);
             } else {
                 break;
-            }
-        }
-
-        if !self.module_name_to_file_ids.is_empty() {
-            let mut module_name = String::new();
-            for (name, file_ids) in &self.module_name_to_file_ids {
-                if file_ids.contains(&file_id) {
-                    module_name = name.clone();
-                    break;
-                }
-            }
-
-            if !module_name.is_empty() {
-                let file_ids = match self.module_name_to_file_ids.get_mut(&module_name) {
-                    Some(ids) => ids,
-                    None => return,
-                };
-
-                file_ids.retain(|id| *id != file_id);
-                if file_ids.is_empty() {
-                    self.module_name_to_file_ids.remove(&module_name);
-                }
             }
         }
     }
